@@ -260,6 +260,22 @@ func (c *Ctx) matchLabel(p *packages.Package, e ast.Expr) string {
 					return "+" + sel.Sel.Name
 				}
 			}
+			// the predicate delegates to another same-package predicate over the message (possibly negated)
+			if call, ok := r.(*ast.CallExpr); ok {
+				if id, ok := unparen(call.Fun).(*ast.Ident); ok {
+					if fn, ok := p.TypesInfo.Uses[id].(*types.Func); ok && fn.Pkg() == p.Types && fn.Name() != name {
+						inner := c.matchLabel(p, id)
+						switch {
+						case strings.HasPrefix(inner, "+") && neg:
+							return "-" + inner[1:]
+						case strings.HasPrefix(inner, "-") && neg:
+							return "+" + inner[1:]
+						case strings.HasPrefix(inner, "+") || strings.HasPrefix(inner, "-"):
+							return inner
+						}
+					}
+				}
+			}
 		}
 	}
 	if name != "" {
